@@ -2,6 +2,7 @@
 mod common;
 mod crdt;
 mod hlc;
+mod node;
 
 use common::Args;
 
@@ -14,6 +15,9 @@ fn main() {
         "C08-local" => crdt::c08_local(&args),
         "C09" => hlc::c09(&args),
         "C10" => hlc::c10(&args),
+        "C11" => node::c11(&args),
+        "C15" => node::c15(&args),
+        "C16" => node::c16(&args),
         other => {
             eprintln!("unknown monitor {other}");
             std::process::exit(2);
